@@ -84,6 +84,8 @@ STUBS = [
 
 # ------------------------------------------------------------------ forms
 class Part:
+    eq = b"="  # how the Content-Disposition parameters spell their '=' (RFC 2045 allows linear white space around it)
+
     def __init__(self, kind: str, name: str, content: List[Any], filename: Optional[str] = None,
                  extra: Tuple[Tuple[str, str], ...] = ()):
         self.kind, self.name, self.content, self.filename, self.extra = kind, name, content, filename, extra
@@ -95,7 +97,7 @@ class Part:
         lines = [f"Content-Disposition: {cd}"]
         for k, v in self.extra:
             lines.append(f"{k}: {v}")
-        return ("\r\n".join(lines)).encode("utf-8")
+        return ("\r\n".join(lines)).encode("utf-8").replace(b'name="', b"name" + self.eq + b'"')
 
 
 def encode_form(parts: List[Part], boundary: bytes, preamble: bytes = b"", epilogue: bytes = b"", lb: bytes = b"\r\n", pad: bytes = b"",
@@ -108,9 +110,9 @@ def encode_form(parts: List[Part], boundary: bytes, preamble: bytes = b"", epilo
     for p in parts:
         # pad: RFC 2046 transport padding (blanks between the boundary and its line break)
         # eq: how the Content-Disposition parameters spell their '=' (RFC 2045 tokens may be separated by linear white space: `filename = "x"`)
-        hb = p.header_bytes().replace(b"\r\n", lb)
         if eq != b"=":
-            hb = hb.replace(b'name="', b"name" + eq + b'"')
+            p.eq = eq
+        hb = p.header_bytes().replace(b"\r\n", lb)
         out += list(b"--" + boundary + pad + lb + hb + lb + lb)
         out += list(p.content)
         out += list(lb)
